@@ -476,6 +476,9 @@ m("c17-branches-swapped", "C17", "x/feemarket/keeper/eip1559.go",
   "\tif parentGasUsed > parentGasTarget {", "\tif parentGasUsed < parentGasTarget {",
   "CalculateBaseFee#", "increase branch taken below target (and the uint64 subtraction wraps): fee rises when blocks are empty, falls when full")
 
+m("c17-zero-height-keeps-enable-height", "C17", "app/export.go",
+  "\tif err := app.FeeMarketKeeper.SetParams(ctx, fmParams); err != nil {\n\t\treturn err\n\t}\n", "\t_ = fmParams\n", "enable-height-rebased",
+  "the zero-height export computes the rebased EnableHeight but does not write it back")
 # ---------------- C18 ----------------
 m("c18-dynfee-feecap-from-tipcap", "C18", "x/evm/types/dynamic_fee_tx.go",
   "gasFeeCapInt, err := types.SafeNewIntFromBigInt(tx.GasFeeCap())", "gasFeeCapInt, err := types.SafeNewIntFromBigInt(tx.GasTipCap())",
